@@ -1,0 +1,109 @@
+//Copyright 2013 Vastech SA (PTY) LTD
+//
+//   Licensed under the Apache License, Version 2.0 (the "License");
+//   you may not use this file except in compliance with the License.
+//   You may obtain a copy of the License at
+//
+//       http://www.apache.org/licenses/LICENSE-2.0
+//
+//   Unless required by applicable law or agreed to in writing, software
+//   distributed under the License is distributed on an "AS IS" BASIS,
+//   WITHOUT WARRANTIES OR CONDITIONS OF ANY KIND, either express or implied.
+//   See the License for the specific language governing permissions and
+//   limitations under the License.
+
+package ast
+
+import (
+	"fmt"
+	"strings"
+)
+
+/*
+InlineRegDefs returns a copy of this lexical part in which the regular definitions
+have been expanded like macros: every reference to a regular definition in the
+pattern of a token or ignored token is replaced by a parenthesised copy of the
+pattern of the definition, transitively.
+
+The productions, including the regular definitions themselves, keep their ids and
+their positions in ProdList. References to imports and to undefined ids are left
+in place. The receiver is not modified.
+
+An error is returned if a regular definition refers to itself, directly or indirectly.
+*/
+func (this *LexPart) InlineRegDefs() (*LexPart, error) {
+	prods := &LexProductions{Productions: make([]LexProduction, len(this.ProdList.Productions))}
+	for i, prod := range this.ProdList.Productions {
+		if prod.RegDef() {
+			prods.Productions[i] = prod
+			continue
+		}
+		pattern, err := this.inlinePattern(prod.LexPattern(), nil)
+		if err != nil {
+			return nil, fmt.Errorf("%s: %s", prod.Id(), err)
+		}
+		switch prod.(type) {
+		case *LexTokDef:
+			prods.Productions[i] = &LexTokDef{id: prod.Id(), pattern: pattern}
+		case *LexIgnoredTokDef:
+			prods.Productions[i] = &LexIgnoredTokDef{id: prod.Id(), pattern: pattern}
+		default:
+			panic(fmt.Sprintf("Unexpected type of lex production: %T", prod))
+		}
+	}
+	lexPart, err := NewLexPart(this.Header, this.LexImports, prods)
+	if err != nil {
+		return nil, err
+	}
+	for id := range this.stringLitToks {
+		lexPart.stringLitToks[id] = lexPart.TokDefs[id]
+	}
+	return lexPart, nil
+}
+
+// inlinePattern returns a deep copy of pattern with all regular definitions expanded.
+// expanding lists the ids of the regular definitions being expanded, outermost first.
+func (this *LexPart) inlinePattern(pattern *LexPattern, expanding []string) (*LexPattern, error) {
+	inlined := &LexPattern{Alternatives: make([]*LexAlt, len(pattern.Alternatives))}
+	for i, alt := range pattern.Alternatives {
+		inlined.Alternatives[i] = &LexAlt{Terms: make([]LexTerm, len(alt.Terms))}
+		for j, term := range alt.Terms {
+			inlinedTerm, err := this.inlineTerm(term, expanding)
+			if err != nil {
+				return nil, err
+			}
+			inlined.Alternatives[i].Terms[j] = inlinedTerm
+		}
+	}
+	return inlined, nil
+}
+
+func (this *LexPart) inlineTerm(term LexTerm, expanding []string) (LexTerm, error) {
+	switch t := term.(type) {
+	case *LexGroupPattern:
+		pattern, err := this.inlinePattern(t.LexPattern, expanding)
+		return &LexGroupPattern{pattern}, err
+	case *LexOptPattern:
+		pattern, err := this.inlinePattern(t.LexPattern, expanding)
+		return &LexOptPattern{pattern}, err
+	case *LexRepPattern:
+		pattern, err := this.inlinePattern(t.LexPattern, expanding)
+		return &LexRepPattern{pattern}, err
+	case *LexRegDefId:
+		regDef, isRegDef := this.RegDefs[t.Id]
+		if _, isImport := this.Imports[t.Id]; isImport || !isRegDef {
+			// Imports are symbols of the lexer. Undefined ids are reported when the item sets are built.
+			return t, nil
+		}
+		expanding = append(expanding, t.Id)
+		for _, id := range expanding[:len(expanding)-1] {
+			if id == t.Id {
+				return nil, fmt.Errorf("recursive regular definition: %s", strings.Join(expanding, " -> "))
+			}
+		}
+		pattern, err := this.inlinePattern(regDef.pattern, expanding)
+		return &LexGroupPattern{pattern}, err
+	}
+	// LexCharLit, LexCharRange and LexDot are never modified and can be shared.
+	return term, nil
+}
